@@ -153,19 +153,19 @@ class Parser:
         self._last_msgid = msgid  # pylint: disable=attribute-defined-outside-init
         assert encoding is not None
         *msgctxt, msgid = msgid.split(b'\x04', 1)
-        kwargs = dict(msgid=msgid.decode(encoding))
+        kwargs = dict(msgid=encodings.decode(msgid, encoding))
         if msgctxt:
             [msgctxt] = msgctxt
-            kwargs.update(msgctxt=msgctxt.decode(encoding))
+            kwargs.update(msgctxt=encodings.decode(msgctxt, encoding))
         if len(msgids) == 1:
             assert [msgstr] == msgstrs
-            kwargs.update(msgstr=msgstr.decode(encoding))
+            kwargs.update(msgstr=encodings.decode(msgstr, encoding))
         else:
             assert len(msgids) == 2
             assert len(msgstrs) >= 1
-            kwargs.update(msgid_plural=msgids[1].decode(encoding))
+            kwargs.update(msgid_plural=encodings.decode(msgids[1], encoding))
             kwargs.update(msgstr_plural=
-                {i: s.decode(encoding) for i, s in enumerate(msgstrs)}
+                {i: encodings.decode(s, encoding) for i, s in enumerate(msgstrs)}
             )
         entry = polib.MOEntry(**kwargs)
         entry.comment = None
